@@ -1172,6 +1172,8 @@ class Interp:
                 names.append(c.info.name)
             elif isinstance(c, Builtin):
                 names.append("builtin:" + c.name)
+            elif isinstance(c, (Node, Rec, str, int, float, Num, Lst, Dct)) or c is None:
+                raise AbsRaise("TypeError", self.site, "isinstance() arg 2 must be a type, a tuple of types, or a union")
             else:
                 raise Unsupported(f"isinstance against {c!r} at {self.site}")
         if isinstance(v, Node):
